@@ -74,6 +74,34 @@ Example C19_does_not_have_added_ex :
   exists bf, build_bloom [[1;2;0;0;0;0;0;0;0;9]] true 7 = Some bf.
 Proof. eexists. vm_compute. reflexivity. Qed.
 
+(* both entry points of the builder: entries added with Add (is_stale = false) and with
+   AddStaleKey (is_stale = true: kept tombstones, expired entries, versions below a discard
+   marker written by compaction) go through the same addHelper; the filter does not depend on
+   the flag, and every key added either way is reported present *)
+Theorem C19_stale_flag_irrelevant : forall (adds : list (bool * bytes)) fp_pos bitsPerKey,
+  builder_hashes adds = key_hashes (map snd adds) /\
+  build_bloom_adds adds fp_pos bitsPerKey = build_bloom (map snd adds) fp_pos bitsPerKey.
+Proof. intros. split; [exact (BloomProofs.builder_hashes_flag_irrelevant adds) | exact (BloomProofs.build_bloom_adds_eq adds fp_pos bitsPerKey)]. Qed.
+Print Assumptions C19_stale_flag_irrelevant.
+
+Theorem C19_does_not_have_added_either_path : forall (adds : list (bool * bytes)) fp_pos bitsPerKey bf is_stale ik,
+  build_bloom_adds adds fp_pos bitsPerKey = Some bf -> In (is_stale, ik) adds ->
+  does_not_have bf (hash (parse_key ik)) = Some false.
+Proof. exact BloomProofs.does_not_have_added_either. Qed.
+Print Assumptions C19_does_not_have_added_either_path.
+Example C19_either_path_ex :
+  exists bf, build_bloom_adds [(false, [1;2;0;0;0;0;0;0;0;9]); (true, [3;0;0;0;0;0;0;0;4])] true 7 = Some bf.
+Proof. eexists. vm_compute. reflexivity. Qed.
+
+(* ... and neither Get nor a key iterator skips the table, MayContainKey(user key) holds *)
+Theorem C19_never_skips_either_path : forall (adds : list (bool * bytes)) fp_pos bitsPerKey bf is_stale ik,
+  build_bloom_adds adds fp_pos bitsPerKey = Some bf -> In (is_stale, ik) adds ->
+  (forall key, parse_key key = parse_key ik -> get_skips_table bf key = Some false) /\
+  pick_skips_table bf (parse_key ik) = Some false /\
+  (bf <> [] -> may_contain_key bf (parse_key ik) = Some true).
+Proof. exact BloomProofs.skips_never_either. Qed.
+Print Assumptions C19_never_skips_either_path.
+
 (* levelHandler.get(key) never skips a table that holds any version of key's user key *)
 Theorem C19_get_never_skips : forall ikeys fp_pos bitsPerKey bf ik key,
   build_bloom ikeys fp_pos bitsPerKey = Some bf -> In ik ikeys ->
